@@ -61,6 +61,8 @@ type CallHook struct {
 }
 
 type FuncContract struct {
+	DynAssigns []string // assumed frame of calls through func values inside this function (listed as an assumption)
+	HasDyn     bool
 	CallsOnly  []string // closed-world frame: the only callees the function may call (substrings of callee keys)
 	CallsTags  []string
 	Hooks      []*CallHook
@@ -104,7 +106,16 @@ type GhostDecl struct {
 	Where   string
 }
 
+type GuardSpec struct {
+	Type   string   // struct type name (in the file's package)
+	Mutex  string   // mutex field name
+	Fields []string // guarded field names
+	Tags   []string
+	Where  string
+}
+
 type ContractFile struct {
+	Guards  []*GuardSpec
 	Path    string
 	PkgPath string
 	Imports map[string]string
@@ -117,7 +128,7 @@ type ContractFile struct {
 var clauseKW = map[string]bool{"func": true, "requires": true, "ensures": true, "assigns": true, "loop": true,
 	"invariant": true, "modifies": true, "unroll": true, "let": true, "checks": true, "trusted": true, "pure": true,
 	"implements": true, "ghost": true, "define": true, "axiom": true, "lemma": true, "calls": true, "assert": true,
-	"assume": true, "import": true, "noinline": true, "decreases": true, "atcall": true, "callsonly": true}
+	"assume": true, "import": true, "noinline": true, "decreases": true, "atcall": true, "callsonly": true, "guardedby": true, "dynamiccalls": true}
 
 var tagRe = regexp.MustCompile(`^((?:@(?:C[0-9]+|SAFETY)\s*)+):?\s*`)
 
@@ -211,6 +222,28 @@ func parseContractFile(path, pkgPath string, isSpeclib bool) (*ContractFile, err
 			cur = fc
 			curLoop = nil
 			ordCount = map[string]int{}
+		case "guardedby":
+			// guardedby [@tags:] T.m: f1, f2
+			text := l.text
+			g := &GuardSpec{Where: where}
+			if m := tagRe.FindStringSubmatch(text); m != nil {
+				for _, tg := range strings.Fields(m[1]) {
+					g.Tags = append(g.Tags, strings.TrimPrefix(tg, "@"))
+				}
+				text = text[len(m[0]):]
+			}
+			parts := strings.SplitN(text, ":", 2)
+			tm := strings.SplitN(strings.TrimSpace(parts[0]), ".", 2)
+			if len(parts) != 2 || len(tm) != 2 {
+				return nil, fmt.Errorf("%s: guardedby T.m: f1, f2", where)
+			}
+			g.Type, g.Mutex = tm[0], tm[1]
+			for _, f := range strings.Split(parts[1], ",") {
+				if f = strings.TrimSpace(f); f != "" {
+					g.Fields = append(g.Fields, f)
+				}
+			}
+			cf.Guards = append(cf.Guards, g)
 		case "ghost", "define":
 			g, err := parseGhost(l.kw, l.text)
 			if err != nil {
@@ -387,6 +420,15 @@ func parseContractFile(path, pkgPath string, isSpeclib bool) (*ContractFile, err
 					return nil, fmt.Errorf("%s: atcall body must be snap or assert", where)
 				}
 				cur.Hooks = append(cur.Hooks, h)
+			case "dynamiccalls":
+				// dynamiccalls assigns d1, d2
+				t := strings.TrimSpace(strings.TrimPrefix(strings.TrimSpace(l.text), "assigns"))
+				cur.HasDyn = true
+				for _, d := range splitTop(t, ',') {
+					if d = strings.TrimSpace(d); d != "" && d != "nothing" {
+						cur.DynAssigns = append(cur.DynAssigns, d)
+					}
+				}
 			case "callsonly":
 				text := l.text
 				if m := tagRe.FindStringSubmatch(text); m != nil {
